@@ -78,11 +78,24 @@ inductive SaveArg
   | matrix (square : Bool) (payload : Nat)
   | dataset (d : Dataset)
 
-/-- `save(folder, data)`: the folder is removed first; a bare csr matrix becomes `adjacency` / `biadjacency` -/
-def save (_old : Folder) (a : SaveArg) : Except PyErr Folder :=
+/-- `shutil.rmtree(folder)`: nothing of what the folder held is left, whatever its kind -/
+def rmtree (_old : Folder) : Folder := []
+
+/-- `save(folder, data)` on a folder holding `old` (the bundles of earlier saves, any other file): the folder is
+    removed first (`if folder.exists(): shutil.rmtree(folder)`), then the bundle is written; a bare csr matrix
+    becomes `adjacency` / `biadjacency`. `save` is a state machine over the folder: `saveAll` runs a history. -/
+def save (old : Folder) (a : SaveArg) : Except PyErr Folder :=
   match a with
-  | .matrix sq p => saveBundle [] [⟨if sq then "adjacency".toList else "biadjacency".toList, .csr, p⟩]
-  | .dataset d => saveBundle [] d
+  | .matrix sq p => saveBundle (rmtree old) [⟨if sq then "adjacency".toList else "biadjacency".toList, .csr, p⟩]
+  | .dataset d => saveBundle (rmtree old) d
+
+/-- a history of saves into the same folder (a failing save leaves the history there) -/
+def saveAll (fs : Folder) : List Dataset → Except PyErr Folder
+  | [] => .ok fs
+  | d :: ds =>
+    match save fs (.dataset d) with
+    | .ok fs' => saveAll fs' ds
+    | .error e => .error e
 
 /-- `s.split(c)` -/
 def splitAtChar (d : Char) : Chars → List Chars
